@@ -1,7 +1,7 @@
 (* C03/Props.v - property-level theorems only (statements + `exact`), each followed by Print Assumptions.
    Tags [FULL]/[PARTIAL]/[REFUTED] are read by bin/check. *)
 From Coq Require Import List ZArith Bool Permutation.
-From BLB Require Import C03.Model C03.Proofs C03.Complete C03.Layer.
+From BLB Require Import Raft.Core Raft.LeaderSuffix C03.Model C03.Proofs C03.Complete C03.Layer C03.LayerCore C03.LayerCoreExample.
 Import ListNotations.
 Open Scope Z_scope.
 
@@ -90,3 +90,76 @@ Theorem definite_error_never_proposed :
   forall cmd, ~ In (ENormal cmd p) (proposed R st).
 Proof. exact definite_error_never_proposed_lemma. Qed.
 Print Assumptions definite_error_never_proposed.
+
+(* [FULL] pairing_correct without the core_contract hypothesis, for every run of the leader loop whose core events come
+   from the Raft node model of Raft/Core.v - start loop_start s0 as in leader_commits_own_suffix of C02, any sequence of
+   coupled iterations CProp batch, CVerify group, CCore with Deliver of any message or Tick or Bootstrap, each a completed
+   core step after which the node still leads the same term, the committed entries returned by the node model handed to
+   the layer by position, the term filter using the node's term; then optionally EvStepDown followed by any layer
+   events. Restricted alphabet - no membership change, no snapshot-done, no restart inside one leadership, membership
+   entries not modelled. Conclusions as in pairing_correct *)
+Theorem pairing_correct_over_raft_core :
+  forall (St R : Type) (apply : St -> Z -> St * R) s0 its evs s tail,
+  loop_start s0 -> crun R (loop_term s0) (cstart R s0) its evs s -> tail_ok tail ->
+  let st := run R (loop_term s0) (evs ++ tail) in
+  fatal R st = false /\
+  map fst (tofsm R st) = committed R st /\
+  map snd (tofsm R st) = firstn (length (committed R st)) (enqueued R st) /\
+  (forall k cmd tag c, nth_error (tofsm R st) k = Some (ENormal cmd tag, c) ->
+     c = CPending tag /\
+     (exists r, In r (reqs R st) /\ rp r = tag /\ rcmd r = cmd) /\
+     forall f0, In (tag, Applied R (Some (snd (apply (fsm_state St R apply f0 (firstn k (tofsm R st))) cmd))))
+                   (fsm_run St R apply f0 (tofsm R st))) /\
+  (forall k c, nth_error (tofsm R st) k = Some (ENop, c) -> exists g, c = CGroup g).
+Proof. exact pairing_over_raft_lemma. Qed.
+Print Assumptions pairing_correct_over_raft_core.
+
+(* [FULL] the coupling is faithful, same runs and alphabet: the layer state is the layer run on the emitted events, it
+   still leads, and the entries it was handed as committed and holds as proposed are - up to the ghost tag, that is in
+   type and command, entry by entry in order - exactly what the Raft node model returned from TakeNewlyCommitted and
+   was handed through core.Propose; this is where leader_commits_own_suffix of C02 is used *)
+Theorem coupled_commits_are_core_commits :
+  forall (R : Type) cur s0 its evs l c,
+  loop_start s0 -> crun R cur (cstart R s0) its evs (l, c) ->
+  l = run R cur evs /\ leading R l = true /\
+  map (er) (committed R l) = map cmd_of (lp_comm c) /\
+  map (er) (proposed R l) = map cmd_of (lp_prop c) /\
+  exists cevs, loop_run {| lp_node := s0; lp_prop := []; lp_comm := [] |} cevs c.
+Proof. exact coupled_faithful. Qed.
+Print Assumptions coupled_commits_are_core_commits.
+
+(* [FULL] pending_concluded_exactly_once without the core_contract hypothesis, same runs and restricted alphabet as
+   pairing_correct_over_raft_core, Pending ids pairwise distinct *)
+Theorem pending_concluded_exactly_once_over_raft_core :
+  forall (St R : Type) (apply : St -> Z -> St * R) s0 its evs s tail f0,
+  loop_start s0 -> crun R (loop_term s0) (cstart R s0) its evs s -> tail_ok tail ->
+  let st := run R (loop_term s0) (evs ++ tail) in
+  NoDup (seen R st) ->
+  NoDup (map fst (concl R st ++ fsm_run St R apply f0 (tofsm R st)) ++
+         flat_map (fun ce => pids (fst ce)) (queue R st)) /\
+  (leading R st = false ->
+   Permutation (map fst (concl R st ++ fsm_run St R apply f0 (tofsm R st))) (seen R st)).
+Proof. exact concluded_once_over_raft_lemma. Qed.
+Print Assumptions pending_concluded_exactly_once_over_raft_core.
+
+(* [FULL] definite_error_never_proposed without the core_contract hypothesis, same runs and restricted alphabet *)
+Theorem definite_error_never_proposed_over_raft_core :
+  forall (R : Type) s0 its evs s tail,
+  loop_start s0 -> crun R (loop_term s0) (cstart R s0) its evs s -> tail_ok tail ->
+  let st := run R (loop_term s0) (evs ++ tail) in
+  NoDup (seen R st) ->
+  forall p o, In (p, o) (concl R st) -> (o = ENotLeader R \/ o = ETermMismatch R) ->
+  forall cmd, ~ In (ENormal cmd p) (proposed R st).
+Proof. exact definite_error_over_raft_lemma. Qed.
+Print Assumptions definite_error_never_proposed_over_raft_core.
+
+(* [FULL] non-vacuity of the composition: a concrete coupled run over the node model - the term-2 leader of the C02
+   example gets one Propose request through the layer, a tick, the follower's acknowledgement - ends with the waiter of
+   request 1 paired with the committed entry of its command 43 and an empty queue *)
+Theorem coupled_run_nonvacuous_thm :
+  exists evs l c,
+    crun unit (loop_term Raft.LeaderSuffixExample.ldr0) (cstart unit Raft.LeaderSuffixExample.ldr0) ex_its evs (l, c) /\
+    tofsm unit l = [(ENormal 43 1, CPending 1)] /\
+    map cmd_of (lp_comm c) = [(EntryNormal, [43])] /\ queue unit l = [] /\ length evs = 4%nat.
+Proof. exact coupled_run_nonvacuous. Qed.
+Print Assumptions coupled_run_nonvacuous_thm.
